@@ -15,19 +15,22 @@
 (*     Shift o Unshift = id, order preserved, the acceptance rule decides      *)
 (*     Tree exactly for the faithful and the unwrapped-delimited parses, and   *)
 (*     the expected tree is the original fragment.                             *)
-EXTENDS ParseModes, Json, IOUtils, SequencesExt
+EXTENDS ParseCases, Json, IOUtils, SequencesExt
 
 CONSTANTS MaxLine, MaxCol, MaxDLine, MaxDCol
 
 ASSUME TableTotal
 ASSUME KindsCovered
+ASSUME ShapesTotal
 ModeSeq   == SetToSeq(Modes)
 TableRows == [i \in 1..Len(ModeSeq) |-> [mode |-> ModeSeq[i], row |-> Row(ModeSeq[i])]]
 Matrix    == SetToSeq({<<m, k>> : m \in Modes, k \in ExprKinds \cup StmtKinds \cup PatKinds \cup TParKinds \cup
                         BoolOps \cup BinOps \cup UnaryOps \cup CmpOps \cup ModKinds \cup Containers \cup
                         {"ExceptHandler", "match_case", "comprehension", "arguments", "arg", "keyword", "alias",
                          "withitem"}} \cap {<<m, k>> \in Modes \X STRING : k \in Row(m).kinds})
-ASSUME ("OUT_FILE" \in DOMAIN IOEnv) => JsonSerialize(IOEnv.OUT_FILE, [table |-> TableRows, matrix |-> Matrix])
+ASSUME ("OUT_FILE" \in DOMAIN IOEnv) => JsonSerialize(IOEnv.OUT_FILE, [table |-> TableRows, matrix |-> Matrix,
+                                                                       shapes |-> [i \in 1..Len(ModeSeq) |-> [mode |-> ModeSeq[i], sep |-> Sep(ModeSeq[i]), shapes |-> Shapes(ModeSeq[i])]],
+                                                                       bridges |-> SetToSeq(Bridges), multiline |-> MultiLine])
 
 VARIABLES phase, frag, par, how, emb, answer
 vars == <<phase, frag, par, how, emb, answer>>
